@@ -84,7 +84,11 @@ var solvers = []solverSpec{
 }
 
 func runSolver(s solverSpec, file string, timeoutS, seed int) (string, string, float64) {
-	ctx, cancel := context.WithTimeout(context.Background(), time.Duration(timeoutS+2)*time.Second)
+	return runSolverCtx(context.Background(), s, file, timeoutS, seed)
+}
+
+func runSolverCtx(parent context.Context, s solverSpec, file string, timeoutS, seed int) (string, string, float64) {
+	ctx, cancel := context.WithTimeout(parent, time.Duration(timeoutS+2)*time.Second)
 	defer cancel()
 	args := s.cmd(file, timeoutS, seed)
 	cmd := exec.CommandContext(ctx, args[0], args[1:]...)
@@ -181,11 +185,12 @@ func discharge(o *Oblig, dir string, idx int, tier string, seed int) {
 	}
 	// E-matching is sensitive to term ordering: a quick "unknown" is retried with other seeds
 	if res == "unknown" && dt < 5 {
-		for _, sd := range []int{seed + 1, seed + 2, seed + 3, seed + 4} {
+		for k := 1; k <= 8; k++ {
+			sd := seed + k
 			rs, outs, dts := runSolver(solvers[0], file, timeout, sd)
 			o.TimeS += dts
 			if rs == "unsat" {
-				o.Result, o.Solver, o.RawOut = rs, fmt.Sprintf("%s(seed %d)", solvers[0].name, sd), outs
+				o.Result, o.Solver, o.RawOut = rs, fmt.Sprintf("%s(seed +%d)", solvers[0].name, k), outs
 				return
 			}
 			if dts >= 5 {
@@ -193,32 +198,56 @@ func discharge(o *Oblig, dir string, idx int, tier string, seed int) {
 			}
 		}
 	}
-	// unknown / timeout: E-matching was not enough; try z3 with model-based quantifier instantiation
+	// unknown / timeout: E-matching was not enough. Race, in parallel: z3 with model-based quantifier
+	// instantiation, z3 with two more seeds and a longer limit, z3 4.8.12 and cvc5; the first "unsat"
+	// (or "sat") wins and the others are cancelled.
 	mfile := base + ".mbqi.smt2"
 	os.WriteFile(mfile, []byte(o.renderV(false, true)), 0o644)
-	mt := timeout * 3
-	rm, outm, dtm := runSolver(solvers[0], mfile, mt, seed)
-	o.TimeS += dtm
-	if rm == "unsat" {
-		o.Result, o.Solver, o.RawOut = rm, solvers[0].name+"(mbqi)", outm
-		return
-	}
-	// then the other solvers
-	r2, out2, dt2 := runSolver(solvers[1], file, timeout, seed)
-	o.TimeS += dt2
-	if r2 == "unsat" || r2 == "sat" {
-		o.Result, o.Solver, o.RawOut = r2, solvers[1].name, out2
-		return
-	}
 	cfile := base + ".cvc5.smt2"
 	os.WriteFile(cfile, []byte(o.render(true)), 0o644)
-	r3, out3, dt3 := runSolver(solvers[2], cfile, timeout, seed)
-	o.TimeS += dt3
-	if r3 == "unsat" || r3 == "sat" {
-		o.Result, o.Solver, o.RawOut = r3, solvers[2].name, out3
-		return
+	long := timeout * 3
+	type attempt struct {
+		label string
+		spec  solverSpec
+		file  string
+		seed  int
 	}
-	o.RawOut = "z3-5.1.0: " + out + "\nz3-4.8.12: " + out2 + "\ncvc5: " + out3
+	attempts := []attempt{
+		{solvers[0].name + "(mbqi)", solvers[0], mfile, seed},
+		{solvers[0].name + "(long, seed +11)", solvers[0], file, seed + 11},
+		{solvers[0].name + "(long, seed +12)", solvers[0], file, seed + 12},
+		{solvers[1].name, solvers[1], file, seed},
+		{solvers[2].name, solvers[2], cfile, seed},
+	}
+	type outcome struct {
+		label, res, out string
+		dt              float64
+	}
+	ctx, cancel := context.WithCancel(context.Background())
+	defer cancel()
+	ch := make(chan outcome, len(attempts))
+	for _, a := range attempts {
+		go func(a attempt) {
+			r, out, d := runSolverCtx(ctx, a.spec, a.file, long, a.seed)
+			ch <- outcome{a.label, r, out, d}
+		}(a)
+	}
+	var raw []string
+	var maxDt float64
+	for range attempts {
+		oc := <-ch
+		if oc.dt > maxDt {
+			maxDt = oc.dt
+		}
+		if oc.res == "unsat" || oc.res == "sat" {
+			o.Result, o.Solver, o.RawOut = oc.res, oc.label, oc.out
+			o.TimeS += oc.dt
+			return
+		}
+		raw = append(raw, oc.label+": "+strings.SplitN(oc.out, "\n", 2)[0])
+	}
+	o.TimeS += maxDt
+	o.RawOut = "z3-5.1.0: " + out + "\n" + strings.Join(raw, "\n")
 }
 
 func dischargeAll(obs []*Oblig, dir string, tier string, seed int) {
